@@ -54,13 +54,13 @@ type cblock struct {
 }
 
 type cfunc struct {
-	fn         *ssa.Function
-	nregs      int
-	blocks     []*cblock
-	params     []int
-	freevars   []int
-	name       string
-	hasRecover bool
+	fn       *ssa.Function
+	nregs    int
+	blocks   []*cblock
+	params   []int
+	freevars []int
+	name     string
+	seen     [64]bool // per-machine "already recorded in cover" flags
 }
 
 type Program struct {
@@ -203,6 +203,9 @@ type frame struct {
 	panicking bool
 	panic     any
 	curInstr  ssa.Instruction
+	base      int
+	index     int
+	depthAt   int
 }
 
 func (fr *frame) get(o *opnd) Value {
@@ -311,8 +314,21 @@ func (m *Machine) callSSA(caller *frame, fn *ssa.Function, args []Value, env []V
 	if m.depth > m.maxDepth {
 		panic(pathEnd{kind: "depth", msg: "call depth exceeded in " + fn.String() + "\n" + m.where(caller)})
 	}
-	cf := m.prog.compile(fn)
-	fr := &frame{m: m, caller: caller, cf: cf, regs: make([]Value, cf.nregs), prev: -1}
+	cf := m.cfuncs[fn]
+	if cf == nil {
+		cf = m.prog.compile(fn)
+		m.cfuncs[fn] = cf
+	}
+	// registers live on a per-machine slab with stack discipline
+	base := m.sp
+	if base+cf.nregs > len(m.slab) {
+		m.growSlab(base + cf.nregs)
+	}
+	m.sp = base + cf.nregs
+	fr := m.newFrame()
+	*fr = frame{m: m, caller: caller, cf: cf, regs: m.slab[base:m.sp:m.sp], prev: -1, base: base, defers: fr.defers[:0]}
+	fr.index = m.nframes - 1
+	fr.depthAt = m.depth
 	for i, r := range cf.params {
 		fr.regs[r] = args[i]
 	}
@@ -320,7 +336,8 @@ func (m *Machine) callSSA(caller *frame, fn *ssa.Function, args []Value, env []V
 		fr.regs[r] = env[i]
 	}
 	m.stats.calls++
-	if m.cover != nil {
+	if !cf.seen[m.id&63] {
+		cf.seen[m.id&63] = true
 		m.cover[fn] = true
 	}
 	saved := m.cur
@@ -330,7 +347,31 @@ func (m *Machine) callSSA(caller *frame, fn *ssa.Function, args []Value, env []V
 	}
 	m.cur = saved
 	m.depth--
-	return fr.result
+	res := fr.result
+	clear(fr.regs)
+	m.sp = base
+	m.nframes--
+	return res
+}
+
+func (m *Machine) growSlab(need int) {
+	// existing frames keep their old backing array (still valid); new frames use the new one
+	n := 2 * len(m.slab)
+	if n < need+4096 {
+		n = need + 4096
+	}
+	ns := make([]Value, n)
+	copy(ns, m.slab[:m.sp])
+	m.slab = ns
+}
+
+func (m *Machine) newFrame() *frame {
+	if m.nframes >= len(m.frames) {
+		m.frames = append(m.frames, &frame{})
+	}
+	fr := m.frames[m.nframes]
+	m.nframes++
+	return fr
 }
 
 func (m *Machine) runFrame(fr *frame) {
@@ -352,6 +393,10 @@ func (m *Machine) runFrame(fr *frame) {
 		fr.panicking = true
 		fr.panic = r
 		m.cur = fr
+		// frames above this one were abandoned by the panic: reclaim their registers
+		m.sp = fr.base + fr.cf.nregs
+		m.nframes = fr.index + 1
+		m.depth = fr.depthAt
 		fr.runDefers()
 		// recovered
 		if fr.cf.fn.Recover != nil {
@@ -467,8 +512,12 @@ func (m *Machine) exec(fr *frame, ci *cinstr) bool {
 	case *ssa.BinOp:
 		fr.regs[ci.dst] = m.binop(in.Op, in.X.Type(), fr.get(&ci.ops[0]), fr.get(&ci.ops[1]))
 	case *ssa.Call:
-		fn, args := m.prepareCall(fr, &in.Call, ci.ops)
-		fr.regs[ci.dst] = m.callValue(fr, fn, args, in, in.Pos())
+		sp0 := m.sp
+		fn, args := m.prepareCall(fr, &in.Call, ci.ops, true)
+		res := m.callValue(fr, fn, args, in, in.Pos())
+		clear(args)
+		m.sp = sp0
+		fr.regs[ci.dst] = res
 		m.cur = fr
 	case *ssa.ChangeInterface:
 		fr.regs[ci.dst] = fr.get(&ci.ops[0])
@@ -546,7 +595,7 @@ func (m *Machine) exec(fr *frame, ci *cinstr) bool {
 		fr.block = b.Succs[0].Index
 		return false
 	case *ssa.Defer:
-		fn, args := m.prepareCall(fr, &in.Call, ci.ops)
+		fn, args := m.prepareCall(fr, &in.Call, ci.ops, false)
 		fr.defers = append(fr.defers, deferred{fn: fn, args: args, pos: in.Pos()})
 	case *ssa.Go:
 		// goroutines are created but never scheduled (see DESIGN §3.9)
@@ -621,12 +670,26 @@ func (m *Machine) exec(fr *frame, ci *cinstr) bool {
 	return false
 }
 
-func (m *Machine) prepareCall(fr *frame, call *ssa.CallCommon, ops []opnd) (Value, []Value) {
+func (m *Machine) argSlab(n int) []Value {
+	if m.sp+n > len(m.slab) {
+		m.growSlab(m.sp + n)
+	}
+	a := m.slab[m.sp : m.sp+n : m.sp+n]
+	m.sp += n
+	return a
+}
+
+func (m *Machine) prepareCall(fr *frame, call *ssa.CallCommon, ops []opnd, onSlab bool) (Value, []Value) {
 	// operand order: Value, Args...
 	v := fr.get(&ops[0])
 	nargs := len(call.Args)
 	if call.Method == nil {
-		args := make([]Value, nargs)
+		var args []Value
+		if onSlab {
+			args = m.argSlab(nargs)
+		} else {
+			args = make([]Value, nargs)
+		}
 		for i := range args {
 			args[i] = fr.get(&ops[i+1])
 		}
@@ -641,7 +704,12 @@ func (m *Machine) prepareCall(fr *frame, call *ssa.CallCommon, ops []opnd) (Valu
 	if fn == nil {
 		m.unsupported("method %s not found for dynamic type %v", call.Method, recv.t)
 	}
-	args := make([]Value, nargs+1)
+	var args []Value
+	if onSlab {
+		args = m.argSlab(nargs + 1)
+	} else {
+		args = make([]Value, nargs+1)
+	}
 	args[0] = recv.v
 	for i := 0; i < nargs; i++ {
 		args[i+1] = fr.get(&ops[i+1])
